@@ -443,7 +443,7 @@ ClauseProbes(p) ==
                 Decl(p \o "o", <<<<"a", "number">>, <<"b", "number">>>>), Out(p \o "o"),
                 Rule(At(p \o "o", <<V("x"), V("y")>>), <<At(p \o "e", <<V("x"), V("y")>>)>>),
                 ClauseP(<<At(p \o "o", <<V("x"), V("z")>>)>>, <<<<At(p \o "o", <<V("x"), V("y")>>), At(p \o "o", <<V("y"), V("z")>>)>>>>,
-                        << <<0, <<2, 1>>>>, <<1, <<1, 2>>>> >>) >>, TCRows(p)),
+                        << <<0, <<2, 1>>>>, <<1, <<2, 1>>>> >>) >>, TCRows(p)),   \* neither version is the textual order
        Probe("clause:plan", "on-disjunction", TC(p, << <<0, <<2, 1>>>> >>, TRUE), TCRows(p)),
        Probe("clause:subsumption", "named-variables",
              << DeclQ(<<p \o "o">>, A1("number"), <<"btree_delete">>, <<>>), Out(p \o "o"),
